@@ -655,15 +655,15 @@ theorem upgradeRoots_append (C : Crypto) (hC : HashWF C) (bs : Array Bytes) (t :
       (st.grow = true → st.cs.roots.length ≤ st.i) → Inv C bs t f st.cs s → st.q.nodes = ln.map (fun p => nodeAt C bs p.1 p.2) → st.q.extra = none →
       ln.length < fuel →
       ∃ st', upgradeRoots C (2 * n) fuel st = .ok st' ∧ Inv C bs t f st'.cs n ∧ st'.q.extra = none ∧ SameMeta st.cs st'.cs
-        ∧ (ln ≠ [] → st'.cs.upgraded = true) ∧ (ln = [] → st'.cs = st.cs) := by
+        ∧ (ln ≠ [] → st'.cs.upgraded = true) ∧ (ln = [] → st'.cs = st.cs) ∧ st'.q.nodes = [] := by
   intro ln
   induction ln with
   | nil =>
-    intro fuel s st hc _ _ hit _ hinv _ hex hfuel
+    intro fuel s st hc _ _ hit _ hinv hq0 hex hfuel
     have := UpgradeComplete.cover_nil_eq _ _ hc
     subst this
     obtain ⟨fuel, rfl⟩ : ∃ x, fuel = x + 1 := ⟨fuel - 1, by simp at hfuel; omega⟩
-    refine ⟨{ st with it := iat 0 s }, ?_, hinv, hex, SameMeta.refl _, fun h => absurd rfl h, fun _ => rfl⟩
+    refine ⟨{ st with it := iat 0 s }, ?_, hinv, hex, SameMeta.refl _, fun h => absurd rfl h, fun _ => rfl, by simpa using hq0⟩
     unfold upgradeRoots
     rw [hit, fullRoot_done s s (Nat.le_refl _)]
     simp
@@ -720,11 +720,11 @@ theorem upgradeRoots_append (C : Crypto) (hC : HashWF C) (bs : Array Bytes) (t :
     have hupg : ar.1.upgraded = true := by rw [← har]; rfl
     obtain ⟨cs1, it1⟩ := ar
     simp only [] at hinv' hit' hmeta hupg ⊢
-    obtain ⟨st', r1, r2, r3, r4, r5, r6⟩ := ih fuel (s + 2 ^ J)
+    obtain ⟨st', r1, r2, r3, r4, r5, r6, r7⟩ := ih fuel (s + 2 ^ J)
       { st with cs := cs1, it := it1.nextTree, q := ⟨ln.map (fun p => nodeAt C bs p.1 p.2), none, st.q.length - 1⟩, grow := false }
       hrest' (List.pairwise_cons.mp hdec).2 hal' (by show it1.nextTree = _; rw [hit']; exact iat_top_nextTree _ top' htop') (fun h => by cases h) hinv' rfl rfl
       (by simp at hfuel; omega)
-    refine ⟨st', r1, r2, r3, hmeta.trans r4, fun _ => ?_, fun h => by cases h⟩
+    refine ⟨st', r1, r2, r3, hmeta.trans r4, fun _ => ?_, (fun h => by cases h), r7⟩
     by_cases hl : ln = []
     · rw [r6 hl]; exact hupg
     · exact r5 hl
@@ -785,7 +785,7 @@ theorem upgradeRoots_match (C : Crypto) (hC : HashWF C) (bs : Array Bytes) (t : 
       cs0.roots = (dn ++ lm).map (fun p => nodeAt C bs p.1 p.2) → Cover lm s m → DecDepth lm → st.i = dn.length →
       Up m s ln us → st.q.nodes = us.map (fun p => nodeAt C bs p.1 p.2) → st.q.extra = none → ln.length < fuel →
       ∃ st', upgradeRoots C (2 * n) fuel st = .ok st' ∧ Inv C bs t f st'.cs n ∧ st'.q.extra = none ∧ SameMeta cs0 st'.cs
-        ∧ st'.cs.upgraded = true := by
+        ∧ st'.cs.upgraded = true ∧ st'.q.nodes = [] := by
   intro ln
   induction ln with
   | nil =>
@@ -842,9 +842,9 @@ theorem upgradeRoots_match (C : Crypto) (hC : HashWF C) (bs : Array Bytes) (t : 
       have hlm : lm = [] := cover_same_nil hcm
       subst hlm
       have hinv' : Inv C bs t f st.cs s := by rw [hcs]; exact hinv
-      obtain ⟨st', r1, r2, r3, r4, r5, _⟩ := upgradeRoots_append C hC bs t f n hN ((J, o) :: ln) (fuel + 1) s st hc hdec hal hit
+      obtain ⟨st', r1, r2, r3, r4, r5, _, r7⟩ := upgradeRoots_append C hC bs t f n hN ((J, o) :: ln) (fuel + 1) s st hc hdec hal hit
         (fun _ => by rw [hrlen, hi]; simp) hinv' hq hex hfuel
-      exact ⟨st', r1, r2, r3, by rw [← hcs]; exact r4, r5 (by simp)⟩
+      exact ⟨st', r1, r2, r3, by rw [← hcs]; exact r4, r5 (by simp), r7⟩
     · -- the first new root: the replica's remaining roots are merged upwards into it
       subst husq
       rw [← c3] at hlt
@@ -921,10 +921,10 @@ theorem upgradeRoots_match (C : Crypto) (hC : HashWF C) (bs : Array Bytes) (t : 
       simp only [hnext]
       have hE2 : (o + 1) * 2 ^ J = s + 2 ^ J := hE
       rw [hE2] at g2
-      obtain ⟨st', r1, r2, r3, r4, r5, r6⟩ := upgradeRoots_append C hC bs t f n hN ln fuel (s + 2 ^ J)
+      obtain ⟨st', r1, r2, r3, r4, r5, r6, r7⟩ := upgradeRoots_append C hC bs t f n hN ln fuel (s + 2 ^ J)
         { st with cs := cs', it := iat 0 (s + 2 ^ J), q := q', grow := false } hrest' (List.pairwise_cons.mp hdec).2 hal' rfl
         (fun h => by cases h) g2 g3 g4 (by simp at hfuel; omega)
-      refine ⟨st', r1, r2, r3, ?_, ?_⟩
+      refine ⟨st', r1, r2, r3, ?_, ?_, r7⟩
       · rw [← hcs]; exact g5.trans r4
       · by_cases hl : ln = []
         · have : st'.cs = cs' := r6 hl
@@ -1081,6 +1081,34 @@ theorem inv_congr (C : Crypto) (bs : Array Bytes) (t : Tree) (f : File) (cs cs' 
   exact ⟨by rw [h1]; exact h.roots, by rw [h2]; exact h.length, by rw [h3]; exact h.bytes, by rw [hvt]; exact h.closed,
     by rw [h4]; exact h.nodesRef, by rw [h4]; exact h.order⟩
 
+/-- the root loop of the honest upgrade consumes every node of the position list -/
+theorem grow_upgradeRoots_all (C : Crypto) (hC : HashWF C) (bs : Array Bytes) (t : Tree) (f : File) (m n : Nat) (hN : n < 2 ^ 64)
+    (hm0 : 0 < m) (hmn : m < n) (cs : Changeset) (hinv : Inv C bs t f cs m)
+    (us : List (Nat × Nat)) (hup : Up m 0 (rootsStack n).reverse us) :
+    ∃ st', upgradeRoots C (2 * n) (2 * n + 2) ⟨cs, Iter.new 0, NodeQueue.new (us.map (fun p => nodeAt C bs p.1 p.2)) none, 0, !cs.roots.isEmpty⟩ = .ok st'
+      ∧ st'.q.extra = none ∧ st'.q.nodes = [] := by
+  have hroots := inv_roots C bs t f cs m hinv
+  have hrne : cs.roots ≠ [] := by
+    rw [hroots, rootsAt]
+    intro hnil
+    have hc := cover_roots m
+    have : (rootsStack m).reverse = [] := by simpa using hnil
+    rw [this] at hc
+    have := UpgradeComplete.cover_nil_eq _ _ hc
+    omega
+  have hgrow : (!cs.roots.isEmpty) = true := by
+    cases hr : cs.roots with
+    | nil => exact absurd hr hrne
+    | cons a b => rfl
+  obtain ⟨st', h1, _, h3, _, _, h6⟩ := upgradeRoots_match C hC bs t f m n hN hm0 hmn cs hinv (rootsStack n).reverse (2 * n + 2) 0
+    ⟨cs, Iter.new 0, NodeQueue.new (us.map (fun p => nodeAt C bs p.1 p.2)) none, 0, !cs.roots.isEmpty⟩ [] (rootsStack m).reverse us
+    (cover_roots n) (rootsStack_rev_dec n) (align_zero _) (by show Iter.new 0 = iat 0 0; exact new_even 0) hgrow rfl
+    (by simpa [rootsAt] using hroots) (cover_roots m) (rootsStack_rev_dec m) rfl hup (by simp [NodeQueue.new]) rfl
+    (by
+      have hl := UpgradeComplete.cover_length_le _ _ _ (cover_roots n)
+      omega)
+  exact ⟨st', h1, h3, h6⟩
+
 theorem grow_upgrade_accepted (C : Crypto) (hC : HashWF C) (bs : Array Bytes) (t : Tree) (f : File) (m n : Nat) (hN : n < 2 ^ 64)
     (hm0 : 0 < m) (hmn : m < n) (fork : Nat) (pk sig : Bytes) (cs : Changeset) (hinv : Inv C bs t f cs m)
     (us : List (Nat × Nat)) (hup : Up m 0 (rootsStack n).reverse us) (hsl : sig.length = 64)
@@ -1104,7 +1132,7 @@ theorem grow_upgrade_accepted (C : Crypto) (hC : HashWF C) (bs : Array Bytes) (t
     cases hr : cs.roots with
     | nil => exact absurd hr hrne
     | cons a b => rfl
-  obtain ⟨st', h1, h2, h3, h4, h5⟩ := upgradeRoots_match C hC bs t f m n hN hm0 hmn cs hinv (rootsStack n).reverse (2 * n + 2) 0
+  obtain ⟨st', h1, h2, h3, h4, h5, _⟩ := upgradeRoots_match C hC bs t f m n hN hm0 hmn cs hinv (rootsStack n).reverse (2 * n + 2) 0
     ⟨cs, Iter.new 0, NodeQueue.new (us.map (fun p => nodeAt C bs p.1 p.2)) none, 0, !cs.roots.isEmpty⟩ [] (rootsStack m).reverse us
     (cover_roots n) (rootsStack_rev_dec n) (align_zero _) (by show Iter.new 0 = iat 0 0; exact new_even 0) hgrow rfl
     (by simpa [rootsAt] using hroots) (cover_roots m) (rootsStack_rev_dec m) rfl hup (by simp [NodeQueue.new]) rfl
